@@ -118,7 +118,7 @@ def one(args):
             prev_in, cids = st.get("in"), st.get("cid", "").split("/")
     d = w.dead()
     out = {"seed": seed, "cfg": cfg, "handshake": hs, "dead": (("server" if w.s.dead else "client"), d[0][:200], d[1], d[2][-1500:]) if d else None,
-           "log": w.replay_lines(), "cops": len(w.c.ops), "tunw_c": [f for _, f in w.tunw_c], "offered": offered, "unmatched_bad": unmatched_bad,
+           "log": w.replay_lines(), "cops": list(w.c.ops), "clines": list(w.c.lines), "ncops": len(w.c.ops), "tunw_c": [f for _, f in w.tunw_c], "offered": offered, "unmatched_bad": unmatched_bad,
            "slowest": 0.0}
     w.close()
     return out
@@ -134,7 +134,7 @@ def run(chk):
         res = list(ex.map(one, jobs))
     nops, hs_ok = 0, 0
     for r in res:
-        nops += r["cops"]
+        nops += r["ncops"]
         hs_ok += 1 if r["handshake"] == ("ret", 0) else 0
         if r["dead"] and r["dead"][0] == "client":
             kind = r["dead"][3].split("runtime error:")[-1].split("\n")[0].strip()[:60] if "runtime error" in r["dead"][3] else ("timeout" if "TIMEOUT" in r["dead"][3] else "asan")
@@ -157,7 +157,8 @@ def run(chk):
                        "all configurations incl. raw mode and type autodetection, ASan+UBSan client with a 60 s per-op deadline; non-trivial = handshake that still completed" % len(res))
     chk.notes["client_ops"] = nops
     for r in res[:2]:
-        chk.sample({"cfg": r["cfg"], "handshake": str(r["handshake"]), "client_ops": r["cops"]})
+        chk.sample({"cfg": r["cfg"], "handshake": str(r["handshake"]), "client_ops": r["ncops"]})
+    W.report_client_model(chk, res, "C06")
     if not chk.violations and not proof_ok:
         chk.violation("proof obligation no longer checks: " + chk.proof_detail,
                       ["# theorems of Props/C06.lean: " + ", ".join(vlib.prop_theorems("C06")), "# " + chk.proof_detail.replace("\n", "\n# ")], no_input=True)
